@@ -92,26 +92,49 @@ example : (readAll [{ seq := [0x1b, 0x5b, 0x41], key := { type := -2 } }] [3] tr
 
 /-! ### a failing Read that carries data; cancellation -/
 
-/-- A last Read that returns bytes TOGETHER with a non-EOF error (`n > 0, err != nil`): the
-code looks at the error first, so the reader behaves exactly as if that Read had returned
-nothing. The messages are those of the successful reads (first conjunct: by definition);
-`lastData` contributes nothing, whatever it is (second conjunct); and the accounting of
-`C09_reader_total` holds for the successful reads: the consumed runs, non-empty and each
-with a message, followed by the left-over are the concatenation of the successful reads, so
-the bytes delivered by the underlying reader are these followed by the discarded `lastData`. -/
+/-- A last Read that returns bytes TOGETHER with an error (`n > 0, err != nil`): the bytes are
+input like any other. The reader accounts for ALL bytes the underlying reader delivered - the
+successful reads AND the bytes that came with the error: the consumed runs, each non-empty and
+with a message, followed by what is still held back, are their concatenation; and what is held
+back at that point can only be held back for the reasons that apply with the flag off (an
+unterminated paste). With no such bytes it is the ordinary failing Read. (Before fix `6d200e8`
+the bytes were dropped: the statement then said `consumedOf out ++ left = reads.flatten`.) -/
 theorem C09_failing_read_with_data (T : Table) (lens : List Nat) (hl : ∀ l ∈ lens, 0 < l)
     (reads : List Bytes) (lastData : Bytes) :
-    readAllX T lens reads lastData = readAll T lens false reads [] [] ∧
-    (∀ lastData', readAllX T lens reads lastData' = readAllX T lens reads lastData) ∧
+    (lastData = [] → readAllX T lens reads lastData = readAll T lens false reads [] []) ∧
     ∃ out left, readAllX T lens reads lastData = .ok (out, left) ∧
-      consumedOf out ++ left = reads.flatten ∧
-      consumedOf out ++ left ++ lastData = (reads ++ [lastData]).flatten ∧
-      (∀ o ∈ out, o.consumed ≠ [] ∧ o.msg.isSome) := by
-  refine ⟨rfl, fun _ => rfl, ?_⟩
+      consumedOf out ++ left = (reads ++ [lastData]).flatten ∧
+      (∀ o ∈ out, o.consumed ≠ [] ∧ o.msg.isSome) ∧
+      (lastData ≠ [] → left ≠ [] → HeldBack T left false) := by
   obtain ⟨out, left, h1, h2, h3, _⟩ := C09_reader_total T lens false hl reads
-  refine ⟨out, left, h1, h2, ?_, h3⟩
-  rw [h2]
-  simp
+  refine ⟨?_, ?_⟩
+  · intro he
+    subst he
+    simp [readAllX, h1]
+  · by_cases he : lastData = []
+    · subst he
+      refine ⟨out, left, by simp [readAllX, h1], by simpa using h2, h3, fun h => absurd rfl h⟩
+    · obtain ⟨out2, left2, d1, d2, d3, d4, _⟩ :=
+        decodeLoop_spec T lens false hl ((left ++ lastData).length + 1) (left ++ lastData) []
+          (by omega) (by simp)
+      have hne : lastData.isEmpty = false := by
+        cases lastData with
+        | nil => exact absurd rfl he
+        | cons _ _ => rfl
+      have hx : readAllX T lens reads lastData = .ok (out ++ out2, left2) := by
+        unfold readAllX
+        rw [h1]
+        simp only [hne]
+        rw [d1]
+        rfl
+      refine ⟨out ++ out2, left2, hx, ?_, ?_, fun _ h => d4 h⟩
+      · have d2' : consumedOf out2 ++ left2 = left ++ lastData := by simpa [consumedOf] using d2
+        rw [consumedOf_append, List.append_assoc, d2', ← List.append_assoc, h2]
+        simp
+      · intro o ho
+        rcases List.mem_append.1 ho with h | h
+        · exact h3 o h
+        · exact d3 o h
 
 /-- Cancellation only truncates: for every budget the messages sent before the reader notices
 the cancellation are EXACTLY the first `min budget n` messages of the uncancelled run (`n` =
@@ -195,8 +218,9 @@ example :
     ((readAllC T [3] true reads 2).toOption.map (·.1))
         = (readAll T [3] true reads [] []).toOption.map (·.1.take 2) ∧
     ((readAllC T [3] true reads 4).toOption.map fun r => (r.1.length, r.2)) = some (4, false) ∧
+    -- the bytes that come together with the error are decoded too (dropped before fix 6d200e8)
     ((readAllX T [3] (reads.take 2) [0x62]).toOption.map fun r => r.1.map (·.consumed))
-        = some [[0x1b, 0x5b, 0x41], [0xff], [0x61]] := by
+        = some [[0x1b, 0x5b, 0x41], [0xff], [0x61], [0x62]] := by
   decide
 
 end Tea.Props.C09
